@@ -443,3 +443,30 @@ func (p *Prog) cacheIncoherence(reader *Func, inputs []string, skip func(f *Func
 	sort.Strings(out)
 	return out
 }
+
+// iterationSkips: in f's range loop rs, some path through one iteration returns
+// to the loop head (or leaves the function) without executing a node accepted
+// by mustDo, other than over an edge accepted by allowedSkip.
+func (p *Prog) iterationSkips(f *Func, rs *ast.RangeStmt, mustDo func(n ast.Node) bool, allowedSkip func(e *Edge) bool) bool {
+	g := p.CFG(f)
+	var ra ast.Node
+	for _, b := range g.Blocks {
+		for _, nd := range b.Nodes {
+			if x, ok := nd.(*RangeAssign); ok && x.Stmt == rs {
+				ra = x
+			}
+		}
+	}
+	if ra == nil {
+		return true
+	}
+	loc, _ := g.Locate(ra)
+	if len(loc.B.Preds) == 0 {
+		return true
+	}
+	head := loc.B.Preds[0].From
+	_, escapes := g.PathAvoiding(Loc{loc.B, loc.I + 1}, mustDo, func(b *Block) bool { return b == head || b == g.Exit }, func(e *Edge) bool {
+		return allowedSkip == nil || !allowedSkip(e)
+	})
+	return escapes
+}
